@@ -1,6 +1,7 @@
 // drv_process.cpp — families "forcing" and "jacobian": the real micm::ProcessSet on
 // integer states / dyadic yields (every double operation exact).
 #include "common/caseio.hpp"
+#include "common/mech.hpp"
 
 #include <micm/process/process.hpp>
 #include <micm/process/process_set.hpp>
@@ -11,121 +12,6 @@
 #include <micm/util/sparse_matrix_standard_ordering.hpp>
 #include <micm/util/sparse_matrix_vector_ordering.hpp>
 #include <micm/util/vector_matrix.hpp>
-
-using vio::Out;
-using vio::Toks;
-
-struct Mech
-{
-  std::map<std::string, std::size_t> vmap;
-  std::vector<micm::Process> processes;
-  // the same mechanism as plain data, for the oracle
-  struct R
-  {
-    std::vector<std::pair<long long, bool>> reactants;            // name, parameterised
-    std::vector<std::tuple<long long, bool, double>> products;    // name, parameterised, yield
-  };
-  std::vector<R> rx;
-  std::map<long long, std::size_t> imap;
-};
-
-static micm::Species mk_species(long long name, bool param)
-{
-  micm::Species s("s" + std::to_string(name));
-  if (param)
-    s.parameterize_ = [](const micm::Conditions&) { return 1.0; };
-  return s;
-}
-
-static Mech read_mech(Toks& tk)
-{
-  Mech m;
-  long long nmap = tk.i();
-  for (long long k = 0; k < nmap; ++k)
-  {
-    long long name = tk.i(), idx = tk.i();
-    if (!m.imap.count(name))
-    {
-      m.vmap["s" + std::to_string(name)] = (std::size_t)idx;
-      m.imap[name] = (std::size_t)idx;
-    }
-  }
-  long long nrxn = tk.i();
-  for (long long r = 0; r < nrxn; ++r)
-  {
-    Mech::R R;
-    std::vector<micm::Species> reactants;
-    std::vector<micm::Yield> products;
-    long long nr = tk.i();
-    for (long long k = 0; k < nr; ++k)
-    {
-      long long name = tk.i(), p = tk.i();
-      reactants.push_back(mk_species(name, p != 0));
-      R.reactants.emplace_back(name, p != 0);
-    }
-    long long np = tk.i();
-    for (long long k = 0; k < np; ++k)
-    {
-      long long name = tk.i(), p = tk.i(), y = tk.i();
-      products.push_back(micm::Yields(mk_species(name, p != 0), y / 8.0));
-      R.products.emplace_back(name, p != 0, y / 8.0);
-    }
-    m.rx.push_back(R);
-    m.processes.push_back(micm::Process::Create()
-                              .SetReactants(reactants)
-                              .SetProducts(products)
-                              .SetRateConstant(micm::UserDefinedRateConstant({ .label_ = "r" + std::to_string(r) }))
-                              .SetPhase(micm::Phase{}));
-  }
-  return m;
-}
-
-template<class M>
-static M to_matrix(std::size_t nrow, std::size_t ncol, double pad, const std::vector<long long>& vals)
-{
-  M m(nrow, ncol, pad);
-  for (std::size_t r = 0; r < nrow; ++r)
-    for (std::size_t c = 0; c < ncol; ++c)
-      m[r][c] = (double)vals[r * ncol + c];
-  return m;
-}
-
-// ---- oracle: dense stoichiometric recomputation, independent of ProcessSet's tables ----
-// forcing[c][s] = f0 + sum_r (sum_{products = s} yield - #{reactants = s}) * k[c][r] * prod_{reactants} y
-static bool oracle_forcing(
-    const Mech& m,
-    std::size_t ncells,
-    std::size_t nspec,
-    std::size_t nrxn,
-    const std::vector<long long>& rc,
-    const std::vector<long long>& y,
-    const std::vector<long long>& f0,
-    const std::function<double(std::size_t, std::size_t)>& get)
-{
-  for (std::size_t c = 0; c < ncells; ++c)
-  {
-    std::vector<double> expect(nspec);
-    for (std::size_t s = 0; s < nspec; ++s)
-      expect[s] = (double)f0[c * nspec + s];
-    for (std::size_t r = 0; r < nrxn; ++r)
-    {
-      double rate = (double)rc[c * nrxn + r];
-      for (auto& q : m.rx[r].reactants)
-        if (!q.second)
-          rate *= (double)y[c * nspec + m.imap.at(q.first)];
-      for (auto& q : m.rx[r].reactants)
-        if (!q.second)
-          expect[m.imap.at(q.first)] -= rate;
-      for (auto& p : m.rx[r].products)
-        if (!std::get<1>(p))
-          expect[m.imap.at(std::get<0>(p))] += std::get<2>(p) * rate;
-    }
-    for (std::size_t s = 0; s < nspec; ++s)
-      if (get(c, s) != expect[s])
-        return false;
-  }
-  return true;
-}
 
 template<class M>
 static void forcing_case(Toks& tk, Out& out, std::size_t ncells, std::size_t nspec, double pad)
